@@ -109,6 +109,15 @@ pub fn gen(tier: &str, r: &mut Rng) -> Vec<String> {
                     }
                 }
             }
+            // the parallel twins split their children over the pool: at conformer level aim at the conformer with
+            // the most atoms (sizes 7, 9, 13, 30 leave a remainder for every pool size) in two cases out of three
+            if level == "conformer" && i % 3 != 0 {
+                let mut best = (0usize, p);
+                for (mi, m) in back.models.iter().enumerate() { for (ci, c) in m.chains.iter().enumerate() { for (xi, x) in c.residues.iter().enumerate() { for (fi, f) in x.confs.iter().enumerate() {
+                    if f.atoms.len() > best.0 { best = (f.atoms.len(), [mi, ci, xi, fi, 0]); }
+                } } } }
+                p = best.1;
+            }
             let mat = if r.chance(1, 3) { gen_mat_near_identity(r) } else { gen_mat(r, true) };
             out.push(format!("c13 struct {} {} {} {} {} {} {} {}", level, p[0], p[1], p[2], p[3], p[4], toks(&mat), back.line()));
         }
